@@ -104,9 +104,14 @@ Theorem C16_matches_dir_conservative : forall s p d,
 Proof. exact matches_dir_conservative. Qed.
 Print Assumptions C16_matches_dir_conservative.
 
-(* the exclude rule's prefix match, for engine W *)
+(* the exclude rule's prefix match (pattern.rs matches_prefix since f55c3e7, for engine W): the
+   pattern fully matches a prefix of the string that is followed by '/' or by the end, i.e. that
+   ends at a path component boundary.  matches_dir calls it on `dir ++ "/"`, so exclude pruning
+   rejects a directory only if the pattern fully matches that directory (with or without the
+   trailing '/') or a component-aligned ancestor prefix of it. *)
 Theorem C16_matches_prefix : forall ci txt p, compile_glob ci txt = Ok p -> forall s,
-  pat_matches_prefix p s = true <-> exists s1 s2, s = s1 ++ s2 /\ gmatch ci (pat_g p) s1.
+  pat_matches_prefix p s = true <->
+  exists s1 s2, s = s1 ++ s2 /\ gmatch ci (pat_g p) s1 /\ (s2 = nil \/ exists t, s2 = 47 :: t).
 Proof. exact compile_prefix. Qed.
 Print Assumptions C16_matches_prefix.
 
@@ -158,6 +163,14 @@ Proof.
   change [65; 98; 380] with ([65] ++ [98] ++ [380] ++ nil).
   repeat constructor. intros [H|[]]. discriminate H.
 Qed.
+(* K3 regression: exclude "/x/b" does not prefix-match "/x/bar/" any more, but "/x/b/" and "/x/b/c/" *)
+Example ex_K3_fixed :
+  let p := mkpat false [GSep; GLit 120; GSep; GLit 98] in
+  pat_matches_prefix p [47;120;47;98;97;114;47] = false /\
+  pat_matches_prefix p [47;120;47;98;47] = true /\
+  pat_matches_prefix p [47;120;47;98] = true /\
+  pat_matches_prefix p [47;120;47;98;47;99;47] = true.
+Proof. vm_compute. auto. Qed.
 (* relative pattern anchored at /d-1/x.y/ż *)
 Example ex_abs : pat_text (abs_pattern (path_of_string [47;100;45;49;47;120;46;121;47;380])
                                        (mkpat false [GStar; GLit 46; GLit 97])) =
